@@ -238,8 +238,9 @@ func runSym(g *gctx, gr group) {
 			path, exp = "unsupported-alg", "err"
 		}
 		c := g.newCall(decFn, alg, path, exp, args...)
+		kk := k
+		good := false
 		c.run(func() {
-			kk := k
 			if kk == nil {
 				kk = symKey(key)
 			}
@@ -247,9 +248,17 @@ func runSym(g *gctx, gr group) {
 			c.err, c.res = err, []namedRes{{"plaintext", out}}
 			if path == "ok" && err == nil && bytes.Equal(out, pt) {
 				rec.Count("roundtrip.sym", 1)
+				good = true
 			}
 		})
 		c.judge()
+		if good {
+			// after the finalizers: the same key object and buffers must still decrypt the same message
+			keepRedo(decFn+" "+alg, func() bool {
+				out, err := symDec(entry, cta.s(), alg, kk, nonce.s(), taga.s(), ada.s())
+				return err == nil && bytes.Equal(out, pt)
+			})
+		}
 	}
 
 	if eerr != nil {
